@@ -200,5 +200,11 @@ def replay(ctx, rp):
     if not c:
         return {"fails": False, "note": "replay file carries no concrete input", "payload": rp}
     r = X.run_c07(ctx, [c])
+    # a change to a regenerated table moves the model along with the library: the replay is judged
+    # by the reference driver (tables the theorems were last proved for) as well, as search() does
+    try:
+        r["failures"] += X.run_c07(ctx, [c], ref=True)["failures"]
+    except Exception:  # noqa: BLE001  (reference driver unavailable)
+        pass
     fs, _ = X.closed_form_search(ctx, [c])
     return {"fails": bool(r["failures"] or fs), "failures": r["failures"] + fs}
